@@ -91,34 +91,161 @@ type diskAbs struct {
 	Raw map[string]int64 `json:"raw,omitempty"`
 }
 
-func odsClass(size int64, ok bool, r *storeref.Ref) string {
+// The abstraction of a file is CONTENT based: how many leading bytes of the file are the bytes of
+// the complete file (storeref OdsImage / Q4Image). The size alone says nothing once a writer reserves
+// space ahead of writing (Truncate / fallocate): a half-written file can have the full size.
+//
+//	written(path, image, from) = length of the longest prefix of the file that equals the image
+//	                             (scanning from `from`, a prefix already known to match)
+
+func written(path string, image []byte, from int64) (n int64, size int64, ok bool) {
+	f, err := os.Open(path)
+	if err != nil {
+		return 0, 0, false
+	}
+	defer f.Close()
+	fi, err := f.Stat()
+	if err != nil {
+		return 0, 0, false
+	}
+	size = fi.Size()
+	n = from
+	if n > size {
+		n = 0
+	}
+	bl := int64(len(image)) - n
+	if size-n < bl {
+		bl = size - n
+	}
+	if bl > 256<<10 {
+		bl = 256 << 10
+	}
+	if bl <= 0 {
+		return n, size, true
+	}
+	buf := make([]byte, bl)
+	for n < int64(len(image)) && n < size {
+		want := image[n:]
+		if len(want) > len(buf) {
+			want = want[:len(buf)]
+		}
+		m, err := f.ReadAt(buf[:len(want)], n)
+		k := 0
+		for k < m && buf[k] == want[k] {
+			k++
+		}
+		n += int64(k)
+		if k < len(want) || err != nil {
+			break
+		}
+	}
+	return n, size, true
+}
+
+// snap rounds a matched prefix length down to an extent the writers can actually leave on the disk:
+// nothing, the 65-byte header (ODS, written unbuffered), a whole number of 64 KiB buffer flushes after
+// it, or the complete file. Reserved-but-unwritten space reads as zeros and a few zeros can coincide
+// with the next bytes of the image (a namespace starts with zero bytes); those are not "written".
+func snap(n, hdr, full int64) int64 {
+	const buf = 64 << 10
+	switch {
+	case n >= full:
+		return full
+	case n < hdr:
+		return 0
+	}
+	return hdr + (n-hdr)/buf*buf
+}
+
+func odsClassOf(n, size int64, ok bool, r *storeref.Ref) string {
+	full := int64(len(r.OdsImage()))
 	switch {
 	case !ok:
 		return "absent"
-	case size < r.HdrSize:
-		return "empty"
-	case size == r.HdrSize:
+	case n < r.HdrSize:
+		return "empty" // the header is not (completely) there
+	case n == r.HdrSize:
 		return "hdr"
-	case size < r.OdsFileSize:
+	case n < full:
 		return "partial"
-	case size == r.OdsFileSize:
+	case size == full:
+		return "full"
+	}
+	return "over" // complete content followed by something else
+}
+
+func q4ClassOf(n, size int64, ok bool, r *storeref.Ref) string {
+	full := int64(len(r.Q4Image()))
+	switch {
+	case !ok:
+		return "absent"
+	case n == 0:
+		return "empty"
+	case n < full:
+		return "partial"
+	case size == full:
 		return "full"
 	}
 	return "over"
 }
 
-func q4Class(size int64, ok bool, r *storeref.Ref) string {
-	switch {
-	case !ok:
-		return "absent"
-	case size == 0:
-		return "empty"
-	case size < r.Q4FileSize:
-		return "partial"
-	case size == r.Q4FileSize:
-		return "full"
+// exactContent: compare every byte (crash-state conformance); otherwise large files are classified by
+// probing the possible extents (see probe).
+var exactContent bool
+
+// probe finds the written extent of a large file without reading it all: the writers can only leave
+// a prefix that ends at one of a few extents (snap); the largest extent whose last 64 bytes are the
+// image's bytes is the written prefix. Small files are compared completely.
+func probe(path string, image []byte, hdr int64) (n int64, size int64, ok bool) {
+	full := int64(len(image))
+	if exactContent || full <= 96<<10 {
+		n, size, ok = written(path, image, 0)
+		return snap(n, hdr, full), size, ok
 	}
-	return "over"
+	f, err := os.Open(path)
+	if err != nil {
+		return 0, 0, false
+	}
+	defer f.Close()
+	fi, err := f.Stat()
+	if err != nil {
+		return 0, 0, false
+	}
+	size = fi.Size()
+	ext := []int64{full}
+	for e := hdr + (full-hdr-1)/(64<<10)*(64<<10); e > hdr; e -= 64 << 10 {
+		ext = append(ext, e)
+	}
+	if hdr > 0 {
+		ext = append(ext, hdr)
+	}
+	buf := make([]byte, 64)
+	for _, e := range ext {
+		if e > size || e < 64 {
+			if e > size {
+				continue
+			}
+		}
+		lo := e - 64
+		if lo < 0 {
+			lo = 0
+		}
+		m, _ := f.ReadAt(buf[:e-lo], lo)
+		if int64(m) == e-lo && string(buf[:m]) == string(image[lo:e]) {
+			return e, size, true
+		}
+	}
+	return 0, size, true
+}
+
+func odsClass(path string, r *storeref.Ref) (string, int64) {
+	n, size, ok := probe(path, r.OdsImage(), r.HdrSize)
+	return odsClassOf(n, size, ok, r), n
+}
+
+func q4Class(path string, r *storeref.Ref) (string, int64) {
+	n, size, ok := probe(path, r.Q4Image(), 0)
+	return q4ClassOf(n, size, ok, r), n
 }
 
 func statSize(p string) (int64, bool) {
@@ -145,14 +272,14 @@ func (w *world) abstract(base string) diskAbs {
 	}
 	for _, f := range []int{0, 1} {
 		r := w.refOfFile(f)
-		os_, ok := statSize(odsPath(base, r))
-		qs, qok := statSize(q4Path(base, r))
-		d.Files = append(d.Files, fileAbs{F: f, Ods: odsClass(os_, ok, r), Q4: q4Class(qs, qok, r)})
-		if ok {
-			d.Raw[fmt.Sprintf("ods%d", f)] = os_
+		oc, on := odsClass(odsPath(base, r), r)
+		qc, qn := q4Class(q4Path(base, r), r)
+		d.Files = append(d.Files, fileAbs{F: f, Ods: oc, Q4: qc})
+		if oc != "absent" {
+			d.Raw[fmt.Sprintf("ods%d", f)] = on
 		}
-		if qok {
-			d.Raw[fmt.Sprintf("q4%d", f)] = qs
+		if qc != "absent" {
+			d.Raw[fmt.Sprintf("q4%d", f)] = qn
 		}
 	}
 	for _, h := range []int{hData, hEmpty} {
@@ -167,8 +294,17 @@ func (w *world) abstract(base string) diskAbs {
 				if bi, err := os.Stat(odsPath(base, r)); err == nil && os.SameFile(li, bi) {
 					la.Lnk = "same"
 				}
-				la.Via = odsClass(li.Size(), true, r)
-				d.Raw[fmt.Sprintf("lnk%d", h)] = li.Size()
+				var vn int64
+				if la.Lnk == "same" {
+					for _, fa := range d.Files {
+						if fa.F == 1 {
+							la.Via, vn = fa.Ods, d.Raw["ods1"]
+						}
+					}
+				} else {
+					la.Via, vn = odsClass(lp, r)
+				}
+				d.Raw[fmt.Sprintf("lnk%d", h)] = vn
 			}
 		}
 		d.Links = append(d.Links, la)
@@ -373,10 +509,22 @@ func (r *recorder) on(ev, path string, height, n int) {
 			}
 			e.PC, e.F, _ = r.classifyPath(ws.path)
 			if ev[dot+1:] != "create.err" {
-				sz, _ := statSize(ws.path)
-				fullSize := ws.ref.OdsFileSize
+				// progress of the writer = bytes of the complete file that are on the disk (not the file size)
+				image := ws.ref.OdsImage()
 				if ws.isQ4 {
-					fullSize = ws.ref.Q4FileSize
+					image = ws.ref.Q4Image()
+				}
+				from := ws.lastSize
+				if from < 0 {
+					from = 0
+				}
+				_ = from
+				fullSize := int64(len(image))
+				var sz int64
+				if ws.isQ4 {
+					sz, _, _ = probe(ws.path, image, 0)
+				} else {
+					sz, _, _ = probe(ws.path, image, ws.ref.HdrSize)
 				}
 				e.Size = sz
 				if sz != ws.lastSize && ws.lastSize >= 0 {
